@@ -1184,6 +1184,9 @@ func run(c *drv.Ctx) error {
 		if err := recreateDuringDeletion(c, bin, c.N(2, 6)); err != nil {
 			fail(fmt.Errorf("recreate scenario: %v", err))
 		}
+		if err := renameOntoDeletingName(c, bin); err != nil {
+			fail(fmt.Errorf("rename-onto scenario: %v", err))
+		}
 	}()
 
 	// ---- history layer
